@@ -48,7 +48,7 @@ class BigMapType(MapType, prim='big_map', args_len=2):
             return f'{{{", ".join(elements)}}}'
 
     def __deepcopy__(self, memodict):
-        res = self.duplicate()
+        res = self._clone()
         # NOTE: If the context is copied in the same pass, follow the copy; otherwise keep sharing it
         res.context = memodict.get(id(self.context), self.context)
         return res
@@ -238,6 +238,11 @@ class BigMapType(MapType, prim='big_map', args_len=2):
         return forge_script_expr(key.pack(legacy=True))
 
     def duplicate(self):
+        assert self.is_duplicable(), f'{self.prim} is not duplicable'
+        return self._clone()
+
+    def _clone(self):
+        # NOTE: plain copy, also used for interpreter snapshots (`__deepcopy__`) where duplicability does not matter
         res = type(self)(
             items=deepcopy(self.items),
             ptr=self.ptr,
